@@ -46,7 +46,7 @@ BASES = [
      lambda: {"m0": [zoo.build(["naive", {"strategy": "mean", "window_length": 3}]), zoo.build(["poly", {"degree": 2}])],
               "m2": [zoo.build(["poly", {"degree": 0}]), zoo.build(["naive", {"strategy": "last", "sp": 2}])], "aggfunc": ["mean", "max"]}),
 ]
-METRICS = [None, "mape", "mse", "asym_fn", "neg_mae", "neg_asym", "mae", "rmspe", "mdspe", "rmdspe_sym", "mdae", "rmse"]
+METRICS = [None, "mape", "mse", "asym_fn", "neg_mae", "neg_asym", "mae", "rmspe", "mdspe", "rmdspe_sym", "mdae", "rmse", "asym", "asym_thr"]
 
 
 def cases(tier, seed):
@@ -193,7 +193,7 @@ def run_case(case, ctx):
                     fold_scores = None
                 if fold_scores:
                     ctx.check("rows.honest", _eq(res[col].iloc[i], float(np.mean(fold_scores))), "tune:row-differs-from-honest-fold-computation:%s" %
-                              ("asymmetric-metric" if case["scoring"] in ("mape", "asym", "asym_fn", "neg_asym") else "metric"),
+                              ("asymmetric-metric" if case["scoring"] in ("mape", "asym", "asym_thr", "asym_fn", "neg_asym") else "metric"),
                               "mean CV score of candidate %d is not the mean over the folds of metric(y_true, y_pred)" % i, got=float(res[col].iloc[i]),
                               expected=float(np.mean(fold_scores)), params=params, metric=metric.name)
         finally:
